@@ -247,24 +247,32 @@ def run(repo, chk):
     dbad = [v for v in (-1, -300, 256, 70000, 0, 5) if bytes(IL(v, v in (-1, 256))) != str(v).encode()]
     chk.expect(not dbad, 'C13.B0', 'IntLiteral.__bytes__ (decimal)', f'{dbad}', ASM)
     chk.expect(bytes(IL(65)) == b'65', 'C13.B0', 'IntLiteral.__bytes__ (non-char)', 'plain ints print in decimal', ASM)
-    ad = repo.find_class(ASM, 'AsciiDirective')
-    lines = [n for n in ad.body if isinstance(n, ast.FunctionDef) and n.name == 'lines']
-    ok = lines and [src(n.value) for n in ast.walk(lines[0]) if isinstance(n, ast.Yield)] == \
-        ["b'.ascii \"' + _escape_bytes(self.data, b'\"') + b'\"'"]
-    chk.expect(ok, 'C13.B0', 'AsciiDirective.lines', 'must emit .ascii "<escaped data>" with the double-quote escaping', ASM)
-    # directive renderers
-    for cls, prefix in (('WordDirective', ".word "), ('ByteDirective', ".byte ")):
-        c = repo.find_class(ASM, cls)
-        ys = [n.value for n in ast.walk(c) if isinstance(n, ast.Yield)]
-        ok = len(ys) == 1 and isinstance(ys[0], ast.BinOp) and isinstance(ys[0].left, ast.Constant) \
-            and ys[0].left.value == prefix.encode() and isinstance(ys[0].right, ast.Call) \
-            and src(ys[0].right.func) == "b', '.join" and len(ys[0].right.args) == 1 \
-            and isinstance(ys[0].right.args[0], (ast.GeneratorExp, ast.ListComp)) \
-            and src(ys[0].right.args[0].generators[0].iter) == 'self.items' \
-            and not ys[0].right.args[0].generators[0].ifs \
-            and src(ys[0].right.args[0].elt) == f'bytes({src(ys[0].right.args[0].generators[0].target)})'
-        ok = ok and 'self.items = items' in src(c)
-        chk.expect(ok, 'C13.B3', f'{cls}.lines', 'items rendered in order, comma separated, each with bytes()', ASM)
+    # the directive as it is written out: AsciiDirective(data).lines(), interpreted for every single byte and for mixed
+    # strings, must be one line `.ascii "<text>"` whose text decodes (reference decoder above) to exactly the data
+    it3 = Interp(repo)
+    it3.allow_generators = True
+    asm3 = it3.load(ASM)
+    abad = []
+    samples = [bytes([v]) for v in range(256)] + [b'', b'a"b\\c\'d', bytes(range(0, 256, 7)), b'\n\r\t\x00end', b'\xff\xfe"']
+    for data in samples:
+        try:
+            ls = [bytes(x) for x in asm3['AsciiDirective'](data).lines()]
+        except Exception as e:      # noqa: BLE001
+            abad.append((data[:8], f'{type(e).__name__}: {e}'))
+            continue
+        if len(ls) != 1 or not ls[0].startswith(b'.ascii "') or not ls[0].endswith(b'"'):
+            abad.append((data[:8], ls))
+            continue
+        dec, err = decode_sphinx(ls[0][len(b'.ascii "'):-1], ord('"'))
+        if err or dec != data:
+            abad.append((data[:8], ls[0][:40]))
+    chk.expect(not abad, 'C13.B0', 'AsciiDirective.lines', f'must emit .ascii "<escaped data>" decoding to the data: {abad[:4]}', ASM)
+    # word / byte directives: items in order, comma separated (more shapes in the shared rendering tabulation below)
+    L3, IL3 = asm3['LabelRef'], asm3['IntLiteral']
+    for cls, prefix in (('WordDirective', b'.word '), ('ByteDirective', b'.byte ')):
+        got = [bytes(x) for x in asm3[cls](IL3(3), L3('lbl'), IL3(-1), IL3(39, True)).lines()]
+        chk.expect(got == [prefix + b"3, lbl, -1, '\\''"], 'C13.B3', f'{cls}.lines', f'items rendered in order, comma separated: {got}', ASM)
+        chk.expect([bytes(x) for x in asm3[cls](IL3(7)).lines()] == [prefix + b'7'], 'C13.B3', f'{cls}.lines single', '', ASM)
 
     from .c09 import rendering
     rendering(repo, chk, 'C13.B3')
